@@ -5,15 +5,23 @@
 (* the XzDiff model runs and its predictions are printed when it reaches pc = "done".    *)
 EXTENDS XzDiffContract, TLC, Json
 
+CONSTANT Matrix    \* TRUE: breadth-first enumeration of the suffix matrix instead of random plans
+
 VARIABLES g, cnt, cat, dd, meta
 gvars == <<g, cnt, cat, dd, meta>>
 
 \* option words that do not change the verdict (cmp does not know diff's options)
+\* "@o" is a hostile option text (xzdiff.in sends options containing a quote through its own copy of "escape")
 OptWords == IF prog = "xzcmp" THEN {"-s", "-b", "--silent", "--print-bytes"}
-            ELSE {"-q", "-s", "-a", "--text", "-U1", "--brief", "-u", "-b"}
+            ELSE {"-q", "-s", "-a", "--text", "-U1", "--brief", "-u", "-b", "--label=@o"}
 SpecialWords == {"--help", "--version", "--he", "--vers"}
-NameClasses == {"plain", "nl", "sq", "dq", "semi", "bs", "amp", "pipe", "subst", "btick", "glob", "colon", "space",
+EscAlpha == {"X", "q", "n", "c"}
+RECURSIVE EscSeqs(_)
+EscSeqs(n) == IF n = 0 THEN {""} ELSE {s \o a : s \in EscSeqs(n - 1), a \in EscAlpha}
+EscClasses == {"esc:" \o s : s \in EscSeqs(2) \cup EscSeqs(3)}
+HostileNames == {"plain", "nl", "sq", "dq", "semi", "bs", "amp", "pipe", "subst", "btick", "glob", "colon", "space",
                 "sqsubst", "sedmix", "bsend", "dash", "dashopt", "dashsubst"}
+NameClasses == HostileNames \cup EscClasses
 DashClasses == {"dash", "dashopt", "dashsubst"}
 Kinds == {"ok", "ok2", "plain", "missing", "corrupt", "late", "pipe", "kill", "stdin", "big"}
 Suffixes(kd) ==
@@ -27,6 +35,7 @@ Suffixes(kd) ==
 CondOf(kd) == IF kd \in {"ok", "ok2", "big", "stdin"} THEN "ok" ELSE kd
 Contents(kd) == IF kd = "big" THEN {"big"} ELSE {"A", "B"}
 
+Dflt == [cond |-> "ok", c |-> "A"]
 Build(ph) == pc = "build" /\ g = ph
 Keep == UNCHANGED <<prog, args, copts, xst, cmpst, views, stemname, exit, outcome, pc>>
 
@@ -52,7 +61,8 @@ ChooseKind ==
     /\ UNCHANGED <<argv, ost, stem, sin, cnt, dd, meta>> /\ Keep
 AddOp ==
     /\ Build("ops") /\ cat # "" /\ cnt > 0
-    /\ \E sf \in Suffixes(cat), nc \in NameClasses, c \in Contents(cat) :
+    /\ \E sf \in Suffixes(cat), w \in 1..4, nc \in NameClasses, c \in Contents(cat) :
+         /\ (w = 1 => nc \in EscClasses) /\ (w > 1 => nc \in HostileNames)
          /\ (nc \in DashClasses => dd)
          /\ LET n   == Len(meta) + 1
                 tok == IF cat = "stdin" THEN "-" ELSE (IF nc \in DashClasses THEN "-" ELSE "") \o "@" \o Idx[n] \o sf
@@ -68,15 +78,38 @@ Start ==
     /\ pc' = "scan" /\ args' = argv /\ g' = "run"
     /\ UNCHANGED <<prog, argv, ost, copts, xst, cmpst, views, stemname, exit, outcome, cnt, cat, dd, meta>>
 
-BuildNext == \/ ChooseCount("nopt", "opts", <<0, 0, 0, 0, 0, 1, 1, 1, 1, 1, 2, 2, 2, 9>>) \/ AddOpt \/ AddSpecial \/ ChooseDD
+\* ---- the suffix matrix: every recognised suffix (and none) in BOTH operand positions, the other operand with every
+\* suffix too, same / different contents, for xzdiff and xzcmp (prog); the one-operand form and "-" first as well.
+\* The three copies of the suffix list in xzdiff.in (lines 125, 127, 191) are separate code.
+AllSuf == {".xz", "-xz", ".lzma", "-lzma", ".lz", "-lz", ".txz", ".tlz", ".gz", "-gz", ".tgz", ".taz", "-z", ".z", ".Z", "_z",
+           ".bz2", "-bz2", ".tbz", ".tbz2", "", ".txt"}
+MKind(sf) == IF sf \in {"", ".txt"} THEN "plain" ELSE "ok"
+MOp(n, sf, c) == [tok |-> "@" \o Idx[n] \o sf, kind |-> MKind(sf), ncls |-> "plain", c |-> c]
+MatrixOps ==
+    /\ Build("matrix")
+    /\ \/ \E s1 \in AllSuf, s2 \in AllSuf, c2 \in {"A", "B"} :
+            /\ meta' = <<MOp(1, s1, "A"), MOp(2, s2, c2)>>
+            /\ stem' = "absent"
+       \/ \E s1 \in AllSuf \ {"_z"}, sm \in {"A", "B", "absent"}, nc \in {"plain", "esc:Xn", "esc:nq"} :
+            /\ meta' = <<[MOp(1, s1, "A") EXCEPT !.ncls = nc]>>
+            /\ stem' = sm
+       \/ \E s2 \in AllSuf, c2 \in {"A", "B"} :
+            /\ meta' = <<[tok |-> "-", kind |-> "stdin", ncls |-> "plain", c |-> "A"], MOp(2, s2, c2)>>
+            /\ stem' = "absent"
+    /\ argv' = [j \in 1..Len(meta') |-> meta'[j].tok]
+    /\ ost' = [j \in 1..3 |-> IF j <= Len(meta') THEN [cond |-> CondOf(meta'[j].kind), c |-> meta'[j].c] ELSE Dflt]
+    /\ sin' = [cond |-> "ok", c |-> "A"]
+    /\ pc' = "scan" /\ args' = argv' /\ g' = "run"
+    /\ UNCHANGED <<prog, copts, xst, cmpst, views, stemname, exit, outcome, cnt, cat, dd>>
+
+BuildNext == \/ MatrixOps \/ ChooseCount("nopt", "opts", <<0, 0, 0, 0, 0, 1, 1, 1, 1, 1, 2, 2, 2, 9>>) \/ AddOpt \/ AddSpecial \/ ChooseDD
              \/ ChooseCount("nops", "ops", <<0, 1, 1, 1, 1, 2, 2, 2, 2, 2, 2, 2, 2, 2, 2, 2, 2, 2, 2, 3>>) \/ ChooseKind \/ AddOp \/ Start
 RunNext == pc \in {"scan", "exist", "run", "fold"} /\ Next /\ UNCHANGED gvars
 
-Dflt == [cond |-> "ok", c |-> "A"]
 GInit == /\ prog \in {"xzdiff", "xzcmp"} /\ argv = <<>> /\ ost = <<Dflt, Dflt, Dflt>> /\ stem = "absent" /\ sin = Dflt
          /\ pc = "build" /\ args = <<>> /\ copts = <<>> /\ xst = <<>> /\ cmpst = 0 /\ views = <<>> /\ stemname = ""
          /\ exit = 0 /\ outcome = "none"
-         /\ g = "nopt" /\ cnt = 0 /\ cat = "" /\ dd = FALSE /\ meta = <<>>
+         /\ g = (IF Matrix THEN "matrix" ELSE "nopt") /\ cnt = 0 /\ cat = "" /\ dd = FALSE /\ meta = <<>>
 GNext == BuildNext \/ RunNext
 GSpec == GInit /\ [][GNext]_<<vars, gvars>>
 
